@@ -109,6 +109,9 @@ structure Sys where
   inheritDone : Bool
   /-- calls for which the emitted events reproduce the effect (everything except finding F4) -/
   good : Op → Prop
+  /-- the call does not reach any mutating method (`extend` with an empty iterator), so it does not even
+  panic after `done()` -/
+  idle : Op → Bool
 
 variable {S : Sys}
 
@@ -160,7 +163,7 @@ def Sys.run (S : Sys) : Obs S.C → List (Call S.Op) → Obs S.C × List (Event 
 
 /-- Does the call panic (done, or out of bounds)? -/
 def Sys.stepPanics (S : Sys) (o : Obs S.C) : Call S.Op → Bool
-  | .op c => o.done || S.panics o.v c
+  | .op c => (o.done && !S.idle c) || S.panics o.v c
   | .done => false
 
 /-- Every state reached while executing `cs` from `o` has at most `M` elements. -/
